@@ -280,7 +280,19 @@ impl<'tcx> Cx<'tcx> {
                 };
                 obj(&[("k", esc("un")), ("op", esc(n)), ("a", op(o))])
             }
-            Rvalue::Discriminant(p) => obj(&[("k", esc("discr")), ("pl", self.place(body, p))]),
+            Rvalue::Discriminant(p) => {
+                let pty = p.ty(&body.local_decls, self.tcx).ty;
+                let mut it: Vec<(&str, String)> = vec![("k", esc("discr")), ("pl", self.place(body, p)), ("ty", esc(&self.ty(pty)))];
+                if let ty::Adt(adt, _) = pty.kind() {
+                    it.push(("adt", esc(&self.path(adt.did()))));
+                    let vs: Vec<String> = adt
+                        .discriminants(self.tcx)
+                        .map(|(vidx, d)| arr(&[esc(&d.val.to_string()), esc(adt.variant(vidx).name.as_str())]))
+                        .collect();
+                    it.push(("variants", arr(&vs)));
+                }
+                obj(&it)
+            }
             Rvalue::CopyForDeref(p) => obj(&[("k", esc("use")), ("a", obj(&[("c", self.place(body, p))]))]),
             Rvalue::Aggregate(kind, ops) => {
                 let opsj: Vec<String> = ops.iter().map(|o| op(o)).collect();
